@@ -369,15 +369,21 @@ void encode_imm(struct instr *instrc) {
       !instrc->mem_disp && IN_RANGE(instrc->cons, NEG32BIT + 1, NEG64BIT)) {
     DO_NOT_PAD(instrc->cons, instrc->reduced_imm, MAX_UNSIGNED_32BIT);
   }
+  // the size of a memory destination is given by its keyword, not by the
+  // registers used in the address
+  unsigned int dst_mode = instrc->opd[0].reg & MODE_MASK;
+  if (instrc->mem_disp && instrc->mem_index == FIRST_OPERAND)
+    dst_mode = instrc->keyword.is_byte   ? reg8
+               : instrc->keyword.is_word ? reg16
+                                         : reg32;
   // mask all bits except for the most significant byte
-  if ((instrc->opd[0].reg & MODE_MASK) < reg32) {
+  if (dst_mode < reg32) {
     DO_NOT_PAD(instrc->cons, instrc->reduced_imm, MAX_UNSIGNED_16BIT);
-    if (((instrc->opd[0].reg & MODE_MASK) == reg16 ||
-         (instrc->opd[0].reg & MODE_MASK) == ext16) &&
+    if ((dst_mode == reg16 || dst_mode == ext16) &&
         instrc->cons <= MAX_UNSIGNED_8BIT)
       instrc->reduced_imm = false;
   }
-  if ((instrc->opd[0].reg & MODE_MASK) < reg16) {
+  if (dst_mode < reg16) {
     DO_NOT_PAD(instrc->cons, instrc->reduced_imm, MAX_UNSIGNED_8BIT);
   }
 }
